@@ -601,6 +601,7 @@ def select__distinct_values(self: XPathFunction, context: ta.ContextType = None)
     def distinct_values(case_insensitive: bool = False) -> Iterator[AtomicType]:
         nan = False
         results: list[AtomicType] = []
+        string_results: list[str] = []
         for value in self[0].atomization(context):
             if case_insensitive and isinstance(value, (str, bytes)):
                 value = value.casefold()
@@ -619,6 +620,13 @@ def select__distinct_values(self: XPathFunction, context: ta.ContextType = None)
                     yield value
                     results.append(key)
 
+            elif isinstance(key, (str, AnyURI)):
+                # xs:string / xs:anyURI values are compared by the collation
+                skey = str(key)
+                if not any(manager.strcoll(skey, x) == 0 for x in string_results):
+                    yield value
+                    string_results.append(skey)
+
             elif not any(key == x and isinstance(key, bool) is isinstance(x, bool)
                          for x in results):
                 yield value
@@ -629,7 +637,7 @@ def select__distinct_values(self: XPathFunction, context: ta.ContextType = None)
     else:
         collation = self.get_argument(self.context or context, 1, required=True, cls=str)
 
-    with CollationManager(collation, self):
+    with CollationManager(collation, self) as manager:
         yield from distinct_values()
 
 
